@@ -331,11 +331,15 @@ Theorem c06_fault_reported_partial : forall ev f ft, ft <> FErrRoot ->
 Proof. exact fault_reported_or_complete. Qed.
 Print Assumptions c06_fault_reported_partial.
 
-(* c06_fault_root_refuted — an error of Stat(".") / ReadDir(".") is dropped: the
-   callback returns nil for the path "." before it looks at the error, the walk
-   ends with nothing yielded and no error, and the layer of a non-empty
-   filesystem is empty [finding C06-F6] *)
+(* c06_fault_root_refuted — with the callback as it is (c06_root_err_checked =
+   false: `path == "."` is tested before `err != nil`) an error of Stat(".") /
+   ReadDir(".") is dropped: the walk ends with nothing yielded and no error, and the
+   layer of a non-empty filesystem is empty [finding C06-F6].  The statement
+   follows the order read from the source: with the error tested first
+   (fixes/C06-F6.patch) it says that the root's error is reported, for every tree. *)
 Theorem c06_fault_root_refuted :
-  walk_faulty env_nohdr w_one FErrRoot = Ok [] /\ walk env_nohdr w_one <> [] /\ validate [] [] w_one [] <> [].
-Proof. exact fault_root_swallowed. Qed.
+  if c06_root_err_checked
+  then forall ev f, walk_faulty ev f FErrRoot = Err
+  else walk_faulty env_nohdr w_one FErrRoot = Ok [] /\ walk env_nohdr w_one <> [] /\ validate [] [] w_one [] <> [].
+Proof. exact fault_root. Qed.
 Print Assumptions c06_fault_root_refuted.
